@@ -119,8 +119,27 @@ impl Channel {
     self.queue.capacity()
   }
 
+  /// The address of the underlying queue, the identity of this channel
+  #[cfg(feature = "verif")]
+  pub fn verif_queue_addr(&self) -> usize {
+    self.queue.to_usize()
+  }
+
   /// Close this channel queue
   pub fn close(&mut self) -> CloseResult {
+    #[cfg(feature = "verif")]
+    if crate::verif::wants(crate::verif::SCHED) {
+      let closed = self.queue.is_closed();
+      crate::verif::emit(
+        crate::verif::SCHED,
+        format!(
+          "{{\"ev\":\"close\",\"c\":{},\"res\":\"{}\",\"len\":{}}}",
+          crate::verif::id(crate::verif::K_CHANNEL, self.queue.to_usize()),
+          if closed { "already" } else { "ok" },
+          self.queue.len()
+        ),
+      );
+    }
     self.queue.close()
   }
 
